@@ -178,6 +178,10 @@ func (m *runtimeContextManager) requireCPU(cpuAmount uint64) {
 	cpuUsed := addResource(m.usedResources.Cpu, cpuAmount)
 	if atLimit(cpuUsed, m.hardLimits.Cpu) {
 		m.TerminateContext("CPU limit of %d exceeded", m.hardLimits.Cpu)
+		// Only reached if the context was terminated already (code unwinding
+		// from the termination may still require resources): nothing beyond
+		// the limit is granted, so that used stays below the limit.
+		return
 	}
 	if m.trackTime && m.nextCpuThreshold <= cpuUsed {
 		m.nextCpuThreshold = cpuUsed + cpuThresholdIncrement
@@ -218,6 +222,8 @@ func (m *runtimeContextManager) requireMem(memAmount uint64) {
 	memUsed := addResource(m.usedResources.Memory, memAmount)
 	if atLimit(memUsed, m.hardLimits.Memory) {
 		m.TerminateContext("memory limit of %d exceeded", m.hardLimits.Memory)
+		// See requireCPU: the context was terminated already.
+		return
 	}
 	m.usedResources.Memory = memUsed
 	verifRequired(m, 1, memAmount)
